@@ -160,6 +160,9 @@ var boundaryArgs = []string{
 	"not-supported", "add", "replace", "delete", "current", "input", "output", "/input", "/output", "string", "union",
 	"identityref", "leafref", "enumeration", "bits", "decimal64", "empty", "int8", "uint64", "instance-identifier",
 	"2020-01-01", "2020-13-45", "0000-00-00", "9999-99-99",
+	// path separators: a module name must never be taken for a file path (D59)
+	"/dev/zero", "/dev/stdin", "/dev/null", "../../etc/passwd", "/etc/passwd", "a/b", "./x", "/proc/self/environ", "..\\x", "/dev/zero@2020-01-01",
+	"/", ".", "/tmp", "/dev/zero.yang",
 }
 
 func boundaryArg(r *rand.Rand) string {
@@ -406,7 +409,16 @@ func opSelfRef(r *rand.Rand, fs *[]*mfile) string {
 		insertKid(n, -1, &mnode{Kw: pfx + ":" + n.Arg, Arg: "x", HasArg: true})
 		return "extension used in its own definition"
 	case "module", "submodule":
-		switch r.Intn(4) {
+		switch r.Intn(5) {
+		case 4:
+			paths := []string{"/dev/zero", "/dev/stdin", "../../etc/passwd", "/", "/dev/null", "a/b", "/etc/hostname"}
+			p := paths[r.Intn(len(paths))]
+			if r.Intn(2) == 0 {
+				insertKid(n, r.Intn(len(n.Kids)+1), st("import", p, st("prefix", "pth")))
+			} else {
+				insertKid(n, r.Intn(len(n.Kids)+1), st("include", p))
+			}
+			return "import / include of a path: " + p
 		case 0:
 			insertKid(n, r.Intn(len(n.Kids)+1), st("include", mname))
 			return "include of itself"
